@@ -519,3 +519,254 @@ Theorem C16_mean_is_C13_mean :
     /\ (this m == Quantile.qsum (map (fun p => fst p * snd p) xw) / Quantile.wtot xw)%Q.
 Proof. exact C16_C13_Link.average_is_wvar_xbar. Qed.
 Print Assumptions C16_mean_is_C13_mean.
+
+(** ---- non-vacuity of the hypotheses (audit) ---- *)
+From Coq Require Import Sorted.
+Ltac c16_qc := vm_compute; first [reflexivity | discriminate | (let H := fresh in intro H; discriminate H)].
+Ltac c16_all := repeat first [apply Forall_nil | apply Forall_cons | apply SSorted_nil | apply SSorted_cons | c16_qc].
+
+Definition nv_x : list Qc := [q 3; q 1; q 2; q 2; q 9].
+Definition nv_w : list Qc := [q 1; q 1; q 0; q 2; q 0].
+Definition nv_s : dict := [("a"%string, nv_x); ("b"%string, [q 5; q 4; q 4; q 7; q 0])].
+Definition nv_s' : dict := [("a"%string, rev nv_x); ("b"%string, rev [q 5; q 4; q 4; q 7; q 0])].
+Definition nv_names : list string := ["b"; "a"]%string.
+Definition nv_outputs : dict :=
+  [("a"%string, [q 1; q 2; q 6]); ("d"%string, [q 7; q 8; q 9]); ("b"%string, [q 3; q 4; q 8])].
+Definition nv_ops : list op :=
+  [OSetW (Some [1; 1; 2]%Q); OSetW (Some [4; 0; 0]%Q); OSetCol "a"%string [5; 5; 5]%Q; OSetW None].
+
+(** the common hypotheses on a weighted column: lengths, non-negative weights (one of them zero,
+    on the largest value), positive sum, a level inside (0, 1), a positive scale *)
+Example C16_weighted_column_nonvacuous :
+  length nv_w = length nv_x /\ Forall (fun v => 0 <= v) nv_w /\ 0 < sumq nv_w
+  /\ 0 <= Q2Qc (3 # 5) /\ Q2Qc (3 # 5) <= 1 /\ 0 < q 7 /\ q 7 <> 0 /\ Q2Qc (3 # 5) <> 0
+  /\ Forall (fun kv : string * list Qc => length (snd kv) = length nv_w) nv_s.
+Proof. repeat split; c16_all. Qed.
+
+Example C16_samples_array_column_nonvacuous :
+  NoDup nv_names
+  /\ option_map (map (map this)) (samples_array nv_names nv_outputs) = Some [[3; 1]; [4; 2]; [8; 6]]%Q
+  /\ (1 < length nv_names)%nat.
+Proof.
+  split; [|split; [vm_compute; reflexivity | vm_compute; auto]].
+  repeat constructor; simpl; intuition discriminate.
+Qed.
+
+(** BOLFI: equal chain lengths, warm-up below the length, a row index in the second chain, rows of
+    k = 2 entries; the model's output passes [bolfi_ok] (hypothesis of [C16_ok_sound]) *)
+Example C16_bolfi_row_nonvacuous :
+  Forall (fun c => length c = 3%nat) ex_chains /\ (1 < 3)%nat /\ (3 < length ex_chains * (3 - 1))%nat
+  /\ map this (nth 3 (bolfi_rows ex_chains 1) []) = [14; 15]%Q.
+Proof. split; [repeat constructor|]. vm_compute. repeat split; auto. Qed.
+
+Example C16_bolfi_row_instance :
+  nth 3 (bolfi_rows ex_chains 1) [] = nth (1 + 3 mod (3 - 1)) (nth (3 / (3 - 1)) ex_chains []) [].
+Proof.
+  apply C16_bolfi_row; [exact (proj1 C16_bolfi_row_nonvacuous) | auto | vm_compute; auto].
+Qed.
+
+Example C16_model_ok_nonvacuous :
+  Forall (fun c => length c = 3%nat) ex_chains
+  /\ Forall (Forall (fun row : list Qc => length row = 2%nat)) ex_chains.
+Proof. split; repeat constructor. Qed.
+
+Example C16_ok_sound_nonvacuous :
+  bolfi_ok 2 ex_chains 1 (Some 4%nat) [[2; 3]; [4; 5]; [12; 13]; [14; 15]]%Q = true
+  /\ bolfi_ok 2 ex_chains 1 (Some 4%nat) [[2; 3]; [4; 5]; [12; 13]; [14; 16]]%Q = false.
+Proof. split; vm_compute; reflexivity. Qed.
+
+Example C16_array_ok_sound_nonvacuous :
+  array_ok nv_names nv_outputs [[3; 1]; [4; 2]; [8; 6]]%Q = true
+  /\ array_ok nv_names nv_outputs [[1; 3]; [2; 4]; [6; 8]]%Q = false
+  /\ (1 < length nv_names)%nat.
+Proof. repeat split; vm_compute; auto. Qed.
+
+(** diagnostics: a <> 0, chains of equal length N = 6 >= 2 (so non-empty), a reordering of the chains *)
+Example C16_diag_nonvacuous :
+  q (-3) <> 0 /\ (2 <= 6)%nat /\ Forall (fun c => length c = 6%nat) ex_diag
+  /\ Forall (fun c : list Qc => c <> []) ex_diag
+  /\ Permutation ex_diag (rev ex_diag) /\ rev ex_diag <> ex_diag.
+Proof.
+  split; [c16_qc|]. split; [auto|]. split; [repeat constructor|].
+  split; [repeat constructor; discriminate|]. split; [apply Permutation_rev|].
+  intro H. apply (f_equal (fun l => map (map this) l)) in H. vm_compute in H. discriminate H.
+Qed.
+
+Example C16_rhat_permutation_instance : forall sqrt, rhat sqrt ex_diag = rhat sqrt (rev ex_diag).
+Proof.
+  intro sqrt. apply (C16_rhat_permutation sqrt ex_diag (rev ex_diag) 6).
+  - apply Permutation_rev.
+  - repeat constructor.
+Qed.
+
+(** histories *)
+Example C16_history_fresh_nonvacuous :
+  NoDup nv_names
+  /\ (exists o, construct nv_names nv_outputs None = Some o)
+  /\ Forall (op_wf nv_names) nv_ops.
+Proof.
+  split; [exact (proj1 C16_samples_array_column_nonvacuous)|]. split.
+  - eexists. vm_compute. reflexivity.
+  - vm_compute. repeat (apply Forall_cons; [simpl; auto|]). apply Forall_nil.
+Qed.
+
+(** weighted means of two columns (hypothesis of [C16_means_definition], [C16_mean_is_C13_mean]) *)
+Example C16_means_definition_nonvacuous :
+  option_map (map (fun kv => (fst kv, this (snd kv)))) (means_of nv_s (Some nv_w))
+  = Some [("a"%string, 2); ("b"%string, 23 # 4)]%Q
+  /\ option_map this (average (Some nv_w) nv_x) = Some 2%Q
+  /\ exists m, average (Some nv_w) nv_x = Some m.
+Proof. split; [vm_compute; reflexivity|]. split; [vm_compute; reflexivity|]. eexists. vm_compute. reflexivity. Qed.
+
+(** quantiles: the C13 link on rationals that are not in canonical form *)
+Example C16_quantile_is_C13_quantile_gen_nonvacuous :
+  Forall2 (fun a b => (this a == b)%Q) nv_w [2 # 2; 3 # 3; 0 # 5; 4 # 2; 0]%Q
+  /\ map this nv_w <> [2 # 2; 3 # 3; 0 # 5; 4 # 2; 0]%Q.
+Proof. split; [repeat constructor|vm_compute; discriminate]. Qed.
+
+(** the domain hypotheses of [C16_quantile_is_C13_quantile_on_dom] / [C16_quantile_unchanged_on_wf] *)
+Example C16_quantile_wf_nonvacuous :
+  length nv_w = length nv_x /\ sumq nv_w <> 0 /\ (sumq nv_w <> 0 \/ Q2Qc (3 # 5) = 0).
+Proof. split; [reflexivity|]. split; [c16_qc | left; c16_qc]. Qed.
+
+(** off the domain: the two cases of [C16_quantile_changed_only_off_wf], and the hypotheses of
+    [C16_quantile_C13_mismatch] and [C16_quantile_C13_zero_sum] *)
+Example C16_quantile_off_wf_nonvacuous :
+  quantile [q 1; q 2] (Q2Qc (1 # 2)) (Some [q 0; q 0]) <> quantile_old [q 1; q 2] (Q2Qc (1 # 2)) (Some [q 0; q 0])
+  /\ quantile [q 2; q 1] (q 0) (Some [q 1]) <> quantile_old [q 2; q 1] (q 0) (Some [q 1])
+  /\ (sumq [q 0; q 0] = 0 /\ length [q 1; q 2] <> 1%nat /\ Q2Qc (1 # 2) <> 0)
+  /\ (length [q 1] <> length [q 2; q 1] /\ Q2Qc (1 # 2) <> 0).
+Proof.
+  split; [vm_compute; discriminate|]. split; [vm_compute; discriminate|].
+  split; [split; [apply Qc_is_canon; vm_compute; reflexivity | split; [simpl; discriminate | c16_qc]]|].
+  split; [simpl; discriminate | c16_qc].
+Qed.
+
+(** an argsort of the column that puts the tied values 2, 2 (positions 2 and 3) in the order the
+    stable sort does not: still a sorting permutation *)
+Example C16_quantile_tie_independent_nonvacuous :
+  C13_Quantile.sorting_perm [1; 3; 2; 0; 4]%nat (map this nv_x)
+  /\ C13_Quantile.sorting_perm [1; 2; 3; 0; 4]%nat (map this nv_x)
+  /\ Quantile.wsq_idx [1; 3; 2; 0; 4]%nat (map this nv_x) (3 # 5)%Q (Some (map this nv_w)) = Some 2%Q.
+Proof.
+  split; [|split; [|vm_compute; reflexivity]].
+  - split.
+    + change (Permutation [1; 3; 2; 0; 4]%nat [0; 1; 2; 3; 4]%nat).
+      apply (Permutation_cons_app [0]%nat [2; 3; 4]%nat). simpl.
+      apply (Permutation_cons_app [0; 2]%nat [4]%nat). simpl.
+      apply (Permutation_cons_app [0]%nat [4]%nat). apply Permutation_refl.
+    + c16_all.
+  - split.
+    + change (Permutation [1; 2; 3; 0; 4]%nat [0; 1; 2; 3; 4]%nat).
+      apply (Permutation_cons_app [0]%nat [2; 3; 4]%nat). simpl.
+      apply (Permutation_cons_app [0]%nat [3; 4]%nat). simpl.
+      apply (Permutation_cons_app [0]%nat [4]%nat). apply Permutation_refl.
+    + c16_all.
+Qed.
+
+Example C16_quantile_tie_independent_instance :
+  Quantile.wsq_idx [1; 3; 2; 0; 4]%nat (map this nv_x) (this (Q2Qc (3 # 5))) (Some (map this nv_w))
+  = option_map this (quantile nv_x (Q2Qc (3 # 5)) (Some nv_w)).
+Proof.
+  destruct C16_weighted_column_nonvacuous as (H1 & H2 & H3 & H4 & H5 & _).
+  exact (C16_quantile_tie_independent nv_x nv_w H1 H2 H3 _ _ (proj1 C16_quantile_tie_independent_nonvacuous) H4 H5).
+Qed.
+
+(** the sample in another order (values and weights together) *)
+Example C16_quantile_permutation_invariant_nonvacuous :
+  length nv_w = length nv_x /\ length (rev nv_w) = length (rev nv_x)
+  /\ Permutation (combine nv_x nv_w) (combine (rev nv_x) (rev nv_w))
+  /\ rev nv_x <> nv_x.
+Proof.
+  split; [reflexivity|]. split; [reflexivity|]. split; [exact (Permutation_rev (combine nv_x nv_w))|].
+  intro H. apply (f_equal (map this)) in H. vm_compute in H. discriminate H.
+Qed.
+
+(** two levels, with weights and without: the hypotheses of [C16_quantile_monotone],
+    [C16_quantile_endpoints], [C16_quantiles_monotone], [C16_ci_ordered], [C16_quantiles_inequalities],
+    [C16_quantiles_scale_invariant] (with [C16_weighted_column_nonvacuous]) *)
+Example C16_quantile_monotone_nonvacuous :
+  (Forall (fun v => 0 <= v) nv_w /\ 0 < sumq nv_w) /\ length nv_w = length nv_x
+  /\ 0 <= Q2Qc (1 # 4) /\ Q2Qc (1 # 4) <= Q2Qc (3 # 5) /\ Q2Qc (3 # 5) <= 1
+  /\ (exists q1 q2, quantile nv_x (Q2Qc (1 # 4)) (Some nv_w) = Some q1 /\ quantile nv_x (Q2Qc (3 # 5)) (Some nv_w) = Some q2
+                    /\ this q1 = 1%Q /\ this q2 = 2%Q)
+  /\ (exists q1 q2, quantile nv_x (Q2Qc (1 # 4)) None = Some q1 /\ quantile nv_x (Q2Qc (3 # 5)) None = Some q2)
+  /\ (exists v0 v1, quantile nv_x 0 (Some nv_w) = Some v0 /\ quantile nv_x 1 (Some nv_w) = Some v1
+                    /\ this v0 = 1%Q /\ this v1 = 3%Q).
+Proof.
+  split; [split; c16_all|]. split; [reflexivity|]. split; [c16_qc|]. split; [c16_qc|]. split; [c16_qc|].
+  split; [do 2 eexists; vm_compute; repeat split; reflexivity|].
+  split; do 2 eexists; vm_compute; repeat split; reflexivity.
+Qed.
+
+Example C16_quantiles_nonvacuous :
+  let sh := option_map (map (fun kv : string * Qc => (fst kv, this (snd kv)))) in
+  Forall (fun kv : string * list Qc => length (snd kv) = length nv_w) nv_s
+  /\ sh (quantiles_of nv_s (Some nv_w) 0) = Some [("a"%string, 1); ("b"%string, 0)]%Q
+  /\ sh (quantiles_of nv_s (Some nv_w) (Q2Qc (25 # 1000))) = Some [("a"%string, 1); ("b"%string, 4)]%Q
+  /\ sh (quantiles_of nv_s (Some nv_w) (Q2Qc (3 # 5))) = Some [("a"%string, 2); ("b"%string, 7)]%Q
+  /\ sh (quantiles_of nv_s (Some nv_w) (Q2Qc (975 # 1000))) = Some [("a"%string, 3); ("b"%string, 7)]%Q
+  /\ sh (quantiles_of nv_s None (Q2Qc (25 # 1000))) = Some [("a"%string, 1); ("b"%string, 0)]%Q
+  /\ sh (quantiles_of nv_s None (Q2Qc (975 # 1000))) = Some [("a"%string, 9); ("b"%string, 7)]%Q
+  /\ (exists lo hi, quantiles_of nv_s (Some nv_w) 0 = Some lo /\ quantiles_of nv_s (Some nv_w) (Q2Qc (3 # 5)) = Some hi)
+  /\ (exists lo hi, quantiles_of nv_s (Some nv_w) (Q2Qc (25 # 1000)) = Some lo
+                    /\ quantiles_of nv_s (Some nv_w) (Q2Qc (975 # 1000)) = Some hi).
+Proof.
+  intro sh. split; [repeat constructor|]. vm_compute.
+  repeat (split; [reflexivity|]). split; do 2 eexists; split; reflexivity.
+Qed.
+
+Example C16_ci_ordered_instance :
+  forall lo hi,
+    quantiles_of nv_s (Some nv_w) (Q2Qc (25 # 1000)) = Some lo -> quantiles_of nv_s (Some nv_w) (Q2Qc (975 # 1000)) = Some hi ->
+    length lo = length nv_s /\ length hi = length nv_s
+    /\ forall j k l k' u, nth_error lo j = Some (k, l) -> nth_error hi j = Some (k', u) -> k = k' /\ l <= u.
+Proof.
+  intros lo hi. apply (C16_ci_ordered nv_s (Some nv_w) lo hi).
+  exact (conj (proj1 (proj2 C16_weighted_column_nonvacuous)) (proj1 (proj2 (proj2 C16_weighted_column_nonvacuous)))).
+Qed.
+
+(** every column and the weights reordered by the same permutation *)
+Example C16_quantiles_permutation_invariant_nonvacuous :
+  Forall2 (fun kv kv' : string * list Qc =>
+             fst kv = fst kv' /\ length (snd kv) = length nv_w /\ length (snd kv') = length (rev nv_w)
+             /\ Permutation (combine (snd kv) nv_w) (combine (snd kv') (rev nv_w))) nv_s nv_s'.
+Proof.
+  repeat (apply Forall2_cons; [split; [reflexivity|]; split; [reflexivity|]; split; [reflexivity|]|]).
+  - exact (Permutation_rev (combine nv_x nv_w)).
+  - exact (Permutation_rev (combine [q 5; q 4; q 4; q 7; q 0] nv_w)).
+  - apply Forall2_nil.
+Qed.
+
+Example C16_quantiles_permutation_invariant_instance :
+  quantiles_of nv_s' (Some (rev nv_w)) (Q2Qc (3 # 5)) = quantiles_of nv_s (Some nv_w) (Q2Qc (3 # 5)).
+Proof.
+  destruct C16_weighted_column_nonvacuous as (_ & H2 & H3 & H4 & H5 & _).
+  exact (C16_quantiles_permutation_invariant _ _ _ _ _ C16_quantiles_permutation_invariant_nonvacuous H2 H3 H4 H5).
+Qed.
+
+Example C16_history_fresh_instance :
+  forall o, construct nv_names nv_outputs None = Some o ->
+    exists f, construct nv_names (so_samples (run o nv_ops)) (so_weights (run o nv_ops)) = Some f
+              /\ so_means f = so_means (run o nv_ops).
+Proof.
+  intros o Ho.
+  destruct (C16_history_fresh nv_names nv_outputs None o nv_ops (proj1 C16_history_fresh_nonvacuous) Ho
+              (proj2 (proj2 C16_history_fresh_nonvacuous))) as (f & Hf & _ & _ & _ & Hm & _).
+  exists f. split; assumption.
+Qed.
+
+Example C16_quantiles_inequalities_instance :
+  forall qs, quantiles_of nv_s (Some nv_w) 0 = Some qs ->
+    length qs = length nv_s
+    /\ forall j k v, nth_error qs j = Some (k, v) ->
+         exists col, nth_error nv_s j = Some (k, col) /\ length nv_w = length col /\ In v col
+                     /\ (forall y, In y col -> v <= y).
+Proof.
+  intros qs Hq.
+  destruct C16_weighted_column_nonvacuous as (_ & H2 & H3 & _ & _ & _ & _ & _ & H9).
+  destruct (C16_quantiles_inequalities nv_s nv_w 0 qs H2 H3) as (Hl & Hj); try assumption; try c16_qc.
+  - intros _. exact H9.
+  - split; [exact Hl|]. intros j k v Hn. destruct (Hj j k v Hn) as (col & A & B & C & _ & _ & _ & D).
+    exists col. repeat split; try assumption. apply D. reflexivity.
+Qed.
